@@ -24,6 +24,8 @@ BASE_ENV.update(
         "CARGO_NET_OFFLINE": "true",
         "CARGO_TERM_COLOR": "never",
         "RUST_BACKTRACE": "0",
+        # instrumented build scripts / proc macros of a coverage build write their profile here, not into /repo
+        "LLVM_PROFILE_FILE": os.path.join(VERIF, "work", "profraw", "build-%p.profraw"),
     }
 )
 
